@@ -95,7 +95,7 @@ theorem stepSession_cases (cx : Ctx) (tc : TapCtx) (ep e : IEnv) (hs : stepSessi
                 · simp [hpo, fail] at hs
                 · simp only [hpo, Bool.false_eq_true, if_false] at hs
                   cases hr : ep.p2shStack.getLast? with
-                  | none => simp [hr] at hs
+                  | none => simp [hr, fail] at hs
                   | some redeem =>
                     simp only [hr] at hs
                     cases hs
@@ -109,9 +109,12 @@ theorem stepSession_cases (cx : Ctx) (tc : TapCtx) (ep e : IEnv) (hs : stepSessi
             cases hs
             exact .finish htce hpc' hp2' (by simpa using hsu) (by simp [view, htce, hp2', List.isEmpty_iff.mp hsu])
           · simp only [hsu, Bool.not_false, if_true] at hs
-            cases hs
-            have hne : ep.successor ≠ [] := by intro h; simp [h] at hsu
-            exact .succ htce hpc' hp2' hne (by simp [view, htce])
+            by_cases hsz : ep.successor.length > Gen.MAX_SCRIPT_SIZE
+            · simp [hsz, fail] at hs
+            · simp only [hsz, if_false] at hs
+              cases hs
+              have hne : ep.successor ≠ [] := by intro h; simp [h] at hsu
+              exact .succ htce hpc' hp2' hne (by simp [view, htce])
       · simp [hc, fail] at hs
     · simp only [hpc, Bool.not_false, if_true] at hs
       cases hst : step cx ep.see ep.pc with
